@@ -92,9 +92,10 @@ def PRepInfo.termPeriod (pi : PRepInfo) : Int := (pi.offsetLimit : Int) + 1
 
 def getPRep (ps : List PRep) (k : Nat) : Option PRep := ps.find? (fun p => p.owner == k)
 
-def setPRep (ps : List PRep) (q : PRep) : List PRep :=
-  if ps.any (fun p => p.owner == q.owner) then ps.map (fun p => if p.owner == q.owner then q else p)
-  else ps ++ [q]
+/-- `p.preps[key] = prep`: replace the entry of that owner or add one -/
+def setPRep : List PRep → PRep → List PRep
+  | [], q => [q]
+  | p :: ps, q => if p.owner == q.owner then q :: ps else p :: setPRep ps q
 
 def newPRep (br : Int) (owner status : Nat) (delegated bonded rate : Int) (pubkey : Bool) : PRep :=
   { owner, status, delegated, bonded, rate, pubkey, power := calcPower br bonded (delegated + bonded) }
@@ -167,9 +168,9 @@ def PRepInfo.calculateReward (pi : PRepInfo) (totalReward totalMinWage minBond :
 /-! ### voters -/
 
 /-- Voter.applyVoting -/
-def avAdd (av : Votes) (k : Nat) (amount : Int) : Votes :=
-  if av.any (fun e => e.1 == k) then av.map (fun e => if e.1 == k then (e.1, e.2 + amount) else e)
-  else av ++ [(k, amount)]
+def avAdd : Votes → Nat → Int → Votes
+  | [], k, amount => [(k, amount)]
+  | e :: rest, k, amount => if e.1 == k then (e.1, e.2 + amount) :: rest else e :: avAdd rest k amount
 
 /-- Voter.ApplyVoting / Voter.ApplyEvent: every vote scaled by `period`. -/
 def avApply (av : Votes) (votes : Votes) (period : Int) : Votes :=
